@@ -98,7 +98,7 @@ def typed_pat(ast, delim):
 
 def make_case(idx):
     R = rng('c13', idx)
-    words = ['foo', 'bar', 'Foo', 'a', 'ab', 'aaa', 'x', 'é', 'été', 'λόγ', '中', 'a1', '_', 'b', 'xfoo', 'foofoo', 'foo_bar']
+    words = ['foo', 'bar', 'Foo', 'a', 'ab', 'aaa', 'x', 'é', 'été', 'λόγ', '中', 'a1', '_', 'b', 'xfoo', 'foofoo', 'foo_bar'] + (['a\\', '\\', 'b\\/', 'a/'] if idx % 5 == 0 else [])
     nl = R.randint(1, 8)
     lines = []
     for _ in range(nl):
@@ -116,7 +116,7 @@ def make_case(idx):
         if k < 0.45 or not steps:
             x = R.random()
             if x < 0.4:
-                w = R.choice(['foo', 'a', 'ab', 'x', 'é', 'aa', 'o', 'bar', 'b'])
+                w = R.choice(['foo', 'a', 'ab', 'x', 'é', 'aa', 'o', 'bar', 'b'] + (['a\\', '\\', 'b\\', 'a/', '\\/'] if idx % 5 == 0 else []))
                 parts = []
                 if R.random() < 0.2:
                     parts.append(('bol',))
@@ -159,7 +159,7 @@ def keys_of(case):
         k += b'%dl' % case['off']
     for cmd, cnt, ast, so in case['steps']:
         if cmd in '/?':
-            k += cnt.encode() + cmd.encode() + (typed_pat(ast, cmd).encode('utf-8') if ast is not None else b'') + ((cmd + so).encode() if so else b'') + b'\n'
+            k += cnt.encode() + cmd.encode() + (typed_pat(ast, cmd).encode('utf-8') if ast is not None else b'') + ((cmd + so).encode() if so else (cmd.encode() if case['idx'] % 3 == 0 else b'')) + b'\n'      # (closing delimiter: optional)
         elif cmd == '^A':
             k += cnt.encode() + b'\x01'
         else:
